@@ -46,8 +46,18 @@ def extract_dtype(v, vops: list[Any]):
     if is_real:
         return L.DataType.REAL
     dtype = L.merge_dtypes(dtypes)
-    if isinstance(v, ufl.classes.Division) and dtype == L.DataType.INT:
-        # The quotient of two integer-valued expressions is not an integer
+    if dtype == L.DataType.INT and not isinstance(
+        v,
+        ufl.classes.Sum
+        | ufl.classes.Product
+        | ufl.classes.Conditional
+        | ufl.classes.MinValue
+        | ufl.classes.MaxValue
+        | ufl.classes.Abs,
+    ):
+        # Only sums, products, selections and absolute values of integer-valued
+        # expressions are integers again: a quotient, a power, a square root or
+        # any other function of them is not (and would be truncated in an int)
         return L.DataType.REAL
     return dtype
 
